@@ -32,6 +32,10 @@ CLAIMED = {
    text="Kernel-checked refinement: the Gallina model of RemoteJob (execute, poll with the retry counter, cancel, rerun, get_results, execute_sync) produces, on EVERY finite trace of client actions x server answers from every state, the outputs of the specification automaton of the statement (C17_refinement_repaired), with corollaries: sent at most once, final statuses absorbing with no request afterwards, four transient failures absorbed and every later consecutive one raised, success resets, fatal errors raise at once, results/cancel/rerun guards. The pre-repair code is kept as a second configuration with vm_compute-refuted witnesses (double send; sixth failure absorbed) — both repaired in /repo by fix commits. The model is tied to /repo by running the real RemoteJob + RPCHandler under `responses` on all traces of length <= 4 over a 14-symbol alphabet (prefix tree), all failure runs of length <= 8 and random long multi-job traces, comparing outcome, exception class, identifiers, HTTP requests received and white-box state at every step.",
    note="All theorems closed under the global context. Read time-outs, malformed 200 bodies and from_id are outside the modelled alphabet.",
    tech="Coq refinement proof (implementation state machine = specification automaton on all traces) + exhaustive short-trace and random long-trace correspondence"),
+ "C20": dict(cat="proof", ref="DESIGN.md §7 C20, §9 row 15",
+   text="Kernel-checked theorems. Every fixed catalog gate (h x y z s sdag t tdag, postprocessed cz/cnot, heralded cz/cnot, klm cnot) is an exact component list over quadratic towers Q(i)(sqrt2)(sqrt3)(alpha) / Q(i)(sqrt2)(b1)(g1)(g2) (Lib/Quad.v: K[x]/(x^2-d) as a computing commutative ring with conjugation, decidable equality); gate_spec states, on the finite dual-rail basis and ALL output states of the (m,n) space (enumeration proved complete), that the heralded post-selected amplitudes (permanent specification amp_num) equal f x the named matrix with one invertible f (1/3, 1/3, sqrt6/9, sqrt6/9, (3-sqrt2)/7), that no non-logical output passing heralds and post-selection carries amplitude, and (success_uniform) that the success probability f conj f is the same for every input; decided by vm_compute in the tower through a proved-sound decision procedure. rx/ry/rz/ph: logical action = named rotation for every ring element (c,s)/phase, hence every real angle (Reals instance). n-qubit controlled rotation (ccz/toffoli = n 3): the data block acts as diag(1,..,1,1+a^n) for every a, n=2,3,4. Tie to /repo on every run: complete comparison of constants (model unitary evaluated through the tower vs build_circuit().compute_unitary(), heralds, post-selection, ports, implementation's SLOS amplitudes), ccz/toffoli/controlled rotations per instance on the implementation's matrix read on a 2^-40 grid. Converters (Qiskit, myQLM, cQASM): translation validation per instance — random circuits (2-4 qubits, <=8 gates, arbitrary ordered qubit pairs, both use_postselection values), exact amp_num on the converted processor's unitary with its heralds/post-selection vs the source unitary up to one complex factor, logical states must pass, leakage enumerated on small cases; failures shrunk.",
+   note="All theorems closed under the global context except the four *_real corollaries (three Coq.Reals axioms). perm(I+aJ_n)=1+a^n is proved for n=2,3,4 only (other n per instance). Converters: no general theorem (per-instance validation); optimizer-fitted generic one-qubit gates are not generated. Two open findings (known_findings.json) are re-found on every run: converter-postselect-remap-nonmonotone (root cause in Experiment._compose_experiment, C10) and converter-postprocessed-cnot-with-cz-or-swap (the choice of post-processed CNOTs ignores CZ and SWAP gates).",
+   tech="Coq proof (quadratic-extension towers, exhaustive vm_compute over the finite basis through a sound decision procedure; symbolic ring proofs for parametrised gates) + complete constant comparison + per-instance translation validation with the extracted exact permanent"),
 }
 REASON_PENDING = "not yet built in this development (see DESIGN.md §10 for the build order); no check is claimed"
 
